@@ -107,6 +107,39 @@ def obligations(tier, seed):
 ''' % (ct, w.name, stub, bits, stub, bits, bits, bits, stub)
         obs.append(Ob(id='C15.trig.arcsin.%s' % rep, prop='C15', group='C15.trig.%s' % rep, prelude=PRE, wrappers=[w], inputs=[(ct, 'x')], body=body, fp=True,
                       contract='au::arcsin(x).in(radians) is std::asin(x), called once on x', functions_under_contract=('au::arcsin',)))
+    # ---- two-argument cmath wrappers on mixed units (double): std function called once on both operands in the common unit (scaling step under its purity contract)
+    for (fn, stubname) in (('hypot', 'hypot'), ('fmod', 'fmod'), ('remainder', 'remainder')):
+        qa = 'au::make_quantity<au::Feet>(a)'; qb = 'au::make_quantity<au::Inches>(b)'; cu2 = 'au::CommonUnitT<au::Feet, au::Inches>'
+        w = Wrapper('w_%s_f64' % fn, 'double', [('double', 'a'), ('double', 'b')], 'return au::%s(%s, %s).in(%s{});' % (fn, qa, qb, cu2))
+        wa = Wrapper('w_%s_a' % fn, 'double', [('double', 'a')], 'return %s.coerce_in<double>(%s{});' % (qa, cu2))
+        wb = Wrapper('w_%s_b' % fn, 'double', [('double', 'b')], 'return %s.coerce_in<double>(%s{});' % (qb, cu2))
+        stub = 'll2c_stub_' + stubname
+        body = '''
+  double A = %s(a), B = %s(b);
+  int before = %s_calls;
+  double r = %s(a, b);
+  CHECK(%s_calls == before + 1, "std-function-called-exactly-once");
+  CHECK(VF_ISNAN(A) ? VF_ISNAN(%s_arg0) : vf_f64_bits(%s_arg0) == vf_f64_bits(A), "first-operand-in-the-common-unit");
+  CHECK(VF_ISNAN(B) ? VF_ISNAN(%s_arg1) : vf_f64_bits(%s_arg1) == vf_f64_bits(B), "second-operand-in-the-common-unit");
+  CHECK(vf_f64_bits(r) == vf_f64_bits(%s_ret), "result-is-its-value-in-the-common-unit");
+''' % (wa.name, wb.name, stub, w.name, stub, stub, stub, stub, stub, stub)
+        obs.append(Ob(id='C15.cmath2.%s.f64' % fn, prop='C15', group='C15.cmath2', prelude=PRE, wrappers=[w, wa, wb], inputs=[('double', 'a'), ('double', 'b')], body=body, fp=True,
+                      abstract=(APPLY_FP,), contract='au::%s(feet(a), inches(b)).in(common unit): std::%s is called exactly once on both operands expressed in the common unit (bit for bit) '
+                                                     'and its value is the result in that unit (libm function trusted)' % (fn, fn), functions_under_contract=('au::%s' % fn,)))
+    # isnan / copysign
+    wn = Wrapper('w_isnan_f64', 'bool', [('double', 'a')], 'return au::isnan(au::make_quantity<au::Feet>(a));')
+    wnp = Wrapper('w_isnan_pt_f32', 'bool', [('float', 'c')], 'return au::isnan(au::make_quantity_point<au::Feet>(c));')
+    wcs = Wrapper('w_copysign_qq', 'double', [('double', 'a'), ('double', 'b')], 'return au::copysign(au::make_quantity<au::Feet>(a), au::make_quantity<au::Seconds>(b)).in(au::Feet{});')
+    body = '''
+  CHECK(w_isnan_f64(a) == VF_ISNAN(a), "isnan-on-a-quantity-is-raw-isnan");
+  CHECK(w_isnan_pt_f32(c) == VF_ISNAN(c), "isnan-on-a-point-is-raw-isnan");
+  double r = w_copysign_qq(a, b);
+  CHECK((vf_f64_bits(r) & 0x7fffffffffffffffULL) == (vf_f64_bits(a) & 0x7fffffffffffffffULL), "copysign-keeps-the-magnitude-bits");
+  CHECK((vf_f64_bits(r) >> 63) == (vf_f64_bits(b) >> 63), "copysign-takes-the-sign-of-the-second-operand");
+'''
+    obs.append(Ob(id='C15.isnan-copysign', prop='C15', group='C15.cmath1', prelude=PRE, wrappers=[wn, wnp, wcs], inputs=[('double', 'a'), ('double', 'b'), ('float', 'c')], body=body, fp=True,
+                  contract='isnan(q), isnan(p) equal the raw isnan; copysign(feet(a), seconds(b)) has a\'s magnitude bits and b\'s sign bit, in feet',
+                  functions_under_contract=('au::isnan', 'au::copysign')))
     # ---- min / max / clamp / abs on quantities (integral, mixed units): equal to the operation on exactly scaled values in the common unit
     ct = 'int32_t'
     qa = 'au::make_quantity<au::Feet>(a)'; qb = 'au::make_quantity<au::Inches>(b)'; cu = 'au::CommonUnitT<au::Feet, au::Inches>'
